@@ -245,11 +245,13 @@ def getitem2 (a : Arr) (i0 i1 : Index) : Except Err Val :=
 def setAt (xs : List Tok) (sel : List Nat) (v : Tok) : List Tok :=
   (List.range xs.length).map (fun i => if sel.contains i then v else xs.getD i 0)
 
+/-- `isinstance(index, (numbers.Integral, np.ndarray))` -/
+def setIndexOk : Index → Bool
+  | .int _ => true | .mask _ .nd => true | .mask _ .strided => true | .arr _ true => true | _ => false
+
 /-- `AtomArray.__setitem__(index, atom)` -/
 def setElement (a : Arr) (ix : Index) (v : AtomV) : Except Err Arr :=
-  let okKind := match ix with
-    | .int _ => true | .mask _ .nd => true | .mask _ .strided => true | .arr _ true => true | _ => false
-  if !okKind then .error .typeError
+  if !setIndexOk ix then .error .typeError
   else if !(a.annot.all (fun p => hasKey p.1 v.annot)) then .error unmodelled   -- KeyError half-way through
   else match resolve a.n ix with
   | .error e => .error e
@@ -410,21 +412,30 @@ def chunks (size : Nat) : Nat → List Tok → List (List Tok)
   | 0, _ => []
   | c + 1, xs => xs.take size :: chunks size c (xs.drop size)
 
+def bondsCountBad (bonds : Option Bonds) (n : Nat) : Bool :=
+  match bonds with | some b => b.count != n | none => false
+
 /-- `repeat(atoms, coord)` with `coord` given as the flat token list of a `(k, [depth,] n, 3)` array -/
 def repeatArr (a : Arr) (k : Nat) (toks : List Tok) : Except Err Arr :=
   if toks.length ≠ k * a.coord.length * a.n then .error .valueError
   else
     let bonds := a.bonds.map (fun b => Bonds.concat (List.replicate (max k 1) b))
-    if (match bonds with | some b => b.count != a.n * k | none => false) then .error .valueError
+    if bondsCountBad bonds (a.n * k) then .error .valueError
     else .ok { a with n := a.n * k
                       annot := a.annot.map (fun p => (p.1, tile k p.2))
                       coord := chunks (a.n * k) a.coord.length toks
                       bonds := bonds }
 
+def boxDepthBad (box : Option (List Tok)) (d : Nat) : Bool :=
+  match box with | some b => b.length != d | none => false
+
+def bondsBad (n : Nat) (bonds : Option (List Bond)) : Bool :=
+  match bonds with | some l => !(l.all (fun b => b.1 < b.2.1 && b.2.1 < n)) | none => false
+
 /-- `from_template(template, coord, box)`; a box whose depth differs is accepted by the code and not modelled -/
 def fromTemplate (a : Arr) (coord : List (List Tok)) (box : Option (List Tok)) : Except Err Arr :=
   if !(coord.all (fun c => c.length == a.n)) then .error .valueError
-  else if (match box with | some b => b.length != coord.length | none => false) then .error unmodelled
+  else if boxDepthBad box coord.length then .error unmodelled
   else .ok { a with stack := true, coord := coord, box := box }
 
 /-! ### annotation edits and attribute setters -/
@@ -446,7 +457,7 @@ def setCoord (a : Arr) (coord : List (List Tok)) : Except Err Arr :=
   else .ok { a with coord := coord }
 
 def setBox (a : Arr) (box : Option (List Tok)) : Except Err Arr :=
-  if (match box with | some b => b.length != a.coord.length | none => false) then .error unmodelled
+  if boxDepthBad box a.coord.length then .error unmodelled
   else .ok { a with box := box }
 
 def bondsValid (n : Nat) (bs : List Bond) : Bool := bs.all (fun b => b.1 < b.2.1 && b.2.1 < n)
@@ -462,8 +473,8 @@ def mkNew (stack : Bool) (n : Nat) (cols : List (String × List Tok)) (coord : L
     (box : Option (List Tok)) (bonds : Option (List Bond)) : Except Err Arr :=
   if !(cols.all (fun p => p.2.length == n)) || !(coord.all (fun c => c.length == n)) then .error unmodelled
   else if !stack && coord.length != 1 then .error unmodelled
-  else if (match box with | some b => b.length != coord.length | none => false) then .error unmodelled
-  else if (match bonds with | some l => !bondsValid n l | none => false) then .error unmodelled
+  else if boxDepthBad box coord.length then .error unmodelled
+  else if bondsBad n bonds then .error unmodelled
   else .ok { stack := stack, n := n
              annot := cols.foldl (fun d p => insert p.1 p.2 d) (mandCols n)
              coord := coord, box := box, bonds := bonds.map (fun l => ⟨n, l⟩) }
